@@ -69,6 +69,18 @@ func (fl *Flow) Locate(n ast.Node) (blk, idx int, ok bool) {
 	if !fl.G.Blocks[blk].Live {
 		return blk, idx, false
 	}
+	// inside a nested function literal? then it does not execute at this point
+	inLit := false
+	ast.Inspect(fl.G.Blocks[blk].Nodes[idx], func(x ast.Node) bool {
+		if l, ok := x.(*ast.FuncLit); ok && l.Body.Pos() <= n.Pos() && n.End() <= l.Body.End() && ast.Node(l) != n {
+			inLit = true
+			return false
+		}
+		return true
+	})
+	if inLit {
+		return blk, idx, false
+	}
 	return blk, idx, true
 }
 
